@@ -535,9 +535,9 @@ def is_orbit(q):
     return q["m"] == "get_orbit_number"
 
 
-def points_of(sat, q):
-    """line events of a solo run of q on a fresh object: (all count, indices in get_orbit_number's own frame,
-    first two occurrences of every distinct source line)"""
+def points_of(sat, q, occ=2):
+    """line events of a solo run of q on a fresh object: (count, indices in the query's own frame,
+    indices of the first `occ` occurrences of every distinct source line, the line log)"""
     r = run_schedule(sat, [q], [], record_lines=True)
     ll = r["linelog"][0]
     own = [i for i, (f, _) in enumerate(ll) if f == q["m"]]
@@ -545,7 +545,7 @@ def points_of(sat, q):
     firsts = []
     for i, key in enumerate(ll):
         c = seen.get(key, 0)
-        if c < 2:
+        if c < occ:
             firsts.append(i)
         seen[key] = c + 1
     return len(ll), own, firsts, ll
@@ -620,81 +620,75 @@ def orbit_query(rng, hours=None):
             "us": [rng.randrange(-86400 * 10 ** 6, 2 * 86400 * 10 ** 6)], "tbus": rng.random() < 0.3, "as_float": rng.random() < 0.3}
 
 
-def plans_two_orbit(ctx, sat, qa, qb, budget_extra):
-    """single pre-emptions of A by a complete B, and all A^k B^m A* B* over own-frame points"""
-    n, own, firsts, _ = points_of(sat, qa)
-    ks = sorted(set(own) | set(firsts))
-    rest = [k for k in range(n + 1) if k not in set(ks)]
-    if ctx.tier == "thorough" and not budget_extra:
-        extra = rest
-    else:
-        extra = ctx.rng.sample(rest, min(len(rest), budget_extra))
-    single = [[[0, k], [1, INF]] for k in sorted(set(ks) | set(extra) | {n})]
-    ms = sorted(set(range(0, 7)) | set(own))
-    double = [[[0, k], [1, m], [0, INF], [1, INF]] for k in own for m in ms if m > 0]
-    return single, double, {"lines": n, "own": len(own), "distinct_first2": len(firsts)}
+def sample(rng, xs, n):
+    xs = list(xs)
+    return xs if n is None or len(xs) <= n else sorted(rng.sample(xs, n))
 
 
-def concurrency(ctx, sats, judge, spy, scale):
-    """Enumerate schedules; judge(sat, queries, plan, r, warm) is called for every run."""
+def concurrency(ctx, sats, judge, spy, mode, scale=1):
+    """Enumerate schedules; judge(sat, queries, plan, r, warm) is called for every run.
+    mode 'model': the points at which the cache protocol can be observed (own frame of get_orbit_number);
+    mode 'full': in addition every distinct source line below it (scratch state of the propagator)."""
     rng = ctx.rng
+    thorough = ctx.tier == "thorough"
     runs = 0
+
+    def go(sat, qs, plan, label, warm=None):
+        r = run_schedule(sat, qs, plan, spy=spy, warm=warm)
+        judge(sat, qs, plan, r, warm)
+        ctx.bump("schedules", label)
+
     for si, sat in enumerate(sats):
+        lead = si == 0
         pool = screen(sat, gen_pool(rng))
         qa, qb = orbit_query(rng), orbit_query(rng)
         if sat.fresh(qa) is None or sat.fresh(qb) is None:
             continue
-        single, double, info = plans_two_orbit(ctx, sat, qa, qb, budget_extra=(40 * scale if si == 0 else 10 * scale)
-                                               if ctx.tier != "thorough" else (0 if si == 0 else 200))
-        if si > 0 and ctx.tier != "thorough":
-            double = rng.sample(double, min(len(double), 60 * scale))
-        ctx.bump("schedule_points", "lines_of_one_get_orbit_number", info["lines"])
-        for plan in single:
-            r = run_schedule(sat, [qa, qb], plan, spy=spy)
-            judge(sat, [qa, qb], plan, r, None)
-            ctx.bump("schedules", "orbit|orbit single pre-emption")
-            runs += 1
+        n, own, firsts, _ = points_of(sat, qa, occ=2 if thorough else 1)
+        ctx.bump("schedule_points", "source lines executed by one fresh get_orbit_number", n)
+        ctx.bump("schedule_points", "of which in its own frame", len(own))
+        # --- two get_orbit_number calls: single pre-emption of A by a complete B
+        ks = set(own) | {n}
+        if mode == "full" and (lead or thorough):
+            ks |= set(firsts)
+        rest = [k for k in range(n + 1) if k not in ks]
+        if thorough and lead and mode == "full":
+            ks |= set(rest)                                   # all single pre-emption points
+        else:
+            ks |= set(sample(rng, rest, (200 if thorough else 20) * scale))
+        for k in sorted(ks):
+            go(sat, [qa, qb], [[0, k], [1, INF]], "orbit|orbit single pre-emption")
+        # --- two pre-emptions: A^k B^m A* B*
+        ms = set(range(1, 6)) | (set(own) if thorough else set(sample(rng, own[5:], 4 * scale)))
+        double = [[[0, k], [1, m], [0, INF], [1, INF]] for k in own for m in sorted(ms)]
+        if not lead and not thorough:
+            double = [double[i] for i in sample(rng, range(len(double)), 30 * scale)]
         for plan in double:
-            r = run_schedule(sat, [qa, qb], plan, spy=spy)
-            judge(sat, [qa, qb], plan, r, None)
-            ctx.bump("schedules", "orbit|orbit two pre-emptions")
-            runs += 1
-        # get_orbit_number against every other kind of query, both roles
-        others = [q for q in pool if not is_orbit(q)]
-        n, own, firsts, _ = points_of(sat, qa)
-        ks = sorted(set(own) | set(firsts[::3]))
-        for q in others:
-            for k in (ks if ctx.tier == "thorough" or si == 0 else own):
-                plan = [[0, k], [1, INF]]
-                r = run_schedule(sat, [qa, q], plan, spy=spy)
-                judge(sat, [qa, q], plan, r, None)
-                ctx.bump("schedules", "orbit pre-empted by " + q["m"])
-                runs += 1
-            nq, ownq, firstsq, _ = points_of(sat, q)
-            pts = sorted(set(ownq) | set(firstsq)) if nq > 150 else list(range(nq + 1))
-            if ctx.tier != "thorough" and len(pts) > 40 * scale:
-                pts = sorted(rng.sample(pts, 40 * scale))
+            go(sat, [qa, qb], plan, "orbit|orbit two pre-emptions")
+        # --- get_orbit_number against every other kind of query, both roles
+        for q in [q for q in pool if not is_orbit(q)]:
+            kk = own if thorough else (own[::2] if lead else sample(rng, own, 5 * scale))
+            if mode == "full" and thorough:
+                kk = sorted(set(kk) | set(firsts[::3]))
+            for k in kk:
+                go(sat, [qa, q], [[0, k], [1, INF]], "orbit pre-empted by " + q["m"])
+            nq, ownq, firstsq, _ = points_of(sat, q, occ=1)
+            pts = sorted(set(ownq) | set(firstsq) | {nq})
+            pts = sample(rng, pts, None if thorough else ((15 if lead else 5) * scale if mode == "full" else 4 * scale))
             for k in pts:
-                plan = [[1, k], [0, INF]]
-                r = run_schedule(sat, [qa, q], plan, spy=spy)
-                judge(sat, [qa, q], plan, r, None)
-                ctx.bump("schedules", q["m"] + " pre-empted by orbit")
-                runs += 1
-        # sampled multi-pre-emption schedules, 2 threads (quick) / 3 threads (thorough), sometimes on a warmed object
-        nthreads = 3 if ctx.tier == "thorough" else 2
-        for _ in range(ctx.size(25, 400) * scale if si < 3 else 0):
+                go(sat, [qa, q], [[1, k], [0, INF]], q["m"] + " pre-empted by orbit")
+        # --- sampled multi-pre-emption schedules; 3 threads in the thorough tier; sometimes on a warmed object
+        nthreads = 3 if thorough else 2
+        for _ in range(ctx.size(25, 300) * scale):
             qs = [orbit_query(rng) if rng.random() < 0.7 else rng.choice(pool) for _ in range(nthreads)]
             if any(sat.fresh(q) is None for q in qs):
                 continue
             plan = []
             for _s in range(rng.randrange(2, 9)):
                 small = rng.random() < 0.6
-                plan.append([rng.randrange(nthreads), rng.randrange(1, 8) if small else rng.randrange(1, max(2, info["lines"]))])
+                plan.append([rng.randrange(nthreads), rng.randrange(1, 8) if small else rng.randrange(1, max(2, n))])
             warm = [rng.choice(pool)] if rng.random() < 0.2 else None
-            r = run_schedule(sat, qs, plan, spy=spy, warm=warm)
-            judge(sat, qs, plan, r, warm)
-            ctx.bump("schedules", "sampled multi-pre-emption x%d" % nthreads)
-            runs += 1
+            go(sat, qs, plan, "sampled multi-pre-emption x%d" % nthreads, warm)
     return runs
 
 
@@ -757,7 +751,7 @@ def correspond(ctx):
         if len(cases) <= 3 and r["log"]:
             ctx.sample({"queries": [q["m"] for q in queries], "plan": plan, "events": fmt_events(r["log"])})
 
-    concurrency(ctx, sats, judge, spy=True, scale=1)
+    concurrency(ctx, sats, judge, spy=True, mode="model")
     outs = drv.run(lines)
     for ln, exp, got, case in zip(lines, expects, outs, cases):
         if exp != got:
@@ -805,7 +799,7 @@ def oracle(ctx):
         ctx.count("eval_schedule")
         judge_results(sat, queries, plan, r, viol, warm)
         ctx.distinct((sat.tle[0][2:7], "s", tuple(qkey(q) for q in queries), json.dumps(plan)))
-    concurrency(ctx, sats[:ctx.size(2, 6)], judge, spy=False, scale=scale)
+    concurrency(ctx, sats[:ctx.size(2, 6)], judge, spy=False, mode="full", scale=scale)
     for sat in sats[:2]:
         free_running(ctx, sat, viol, rounds=ctx.size(10, 200))
     m = module_state()
